@@ -738,3 +738,133 @@ func coInitialised(p *Prog, t, f, g string) bool {
 	}
 	return false
 }
+
+// R-owner-overwrite: a handle an owner holds is not replaced while it is open. Every store of a new value into an
+// owner field (outside the construction of a fresh owner) is preceded by a Close of the old value — in the storing
+// function or, when the function is a helper, at every one of its call sites.
+func ruleOwnerOverwrite(r *Report) {
+	const rule = "owner-overwrite"
+	r.Rule(rule, 3, "for every closable field of a type with a Close method: a store that replaces the field's value happens on a freshly allocated owner, or after the old value was closed (in the same function or at each call site of the helper that stores), or the field is assigned exactly once in the owner's Open")
+	p := r.P
+	type fieldKey struct{ owner, field string }
+	owners := map[fieldKey]bool{}
+	for _, fn := range p.ModuleFuncs() {
+		if fn.Name() != "Close" || fn.Signature.Recv() == nil || fn.Parent() != nil || fn.Synthetic != "" {
+			continue
+		}
+		rt := fn.Signature.Recv().Type()
+		st := derefStruct(rt)
+		if st == nil {
+			continue
+		}
+		for i := 0; i < st.NumFields(); i++ {
+			f := st.Field(i)
+			if isSlice, ok := closableFieldType(f.Type()); !ok || isSlice {
+				continue
+			}
+			if _, ex := ownerFieldExempt[typeShort(rt)+"."+f.Name()]; ex {
+				continue
+			}
+			owners[fieldKey{typeShort(rt), f.Name()}] = true
+		}
+	}
+	closesFieldBefore := func(fn *ssa.Function, field string, at Site) bool {
+		ok := false
+		eachInstr(fn, func(s Site) {
+			c, isC := s.Instr.(ssa.CallInstruction)
+			if !isC {
+				return
+			}
+			cc := c.Common()
+			var recv ssa.Value
+			name := ""
+			if cc.IsInvoke() {
+				recv, name = cc.Value, cc.Method.Name()
+			} else if sc := cc.StaticCallee(); sc != nil && sc.Signature.Recv() != nil && len(cc.Args) > 0 {
+				recv, name = cc.Args[0], sc.Name()
+			}
+			if name != "Close" || recv == nil {
+				return
+			}
+			if _, fld, _, isF := loadOfField(recv); isF && fld == field && precedes(s, at) {
+				ok = true
+			}
+		})
+		return ok
+	}
+	isFresh := func(v ssa.Value) bool {
+		_, ok := v.(*ssa.Alloc)
+		return ok
+	}
+	for _, fn := range p.ModuleFuncs() {
+		if fn.Blocks == nil {
+			continue
+		}
+		eachInstr(fn, func(s Site) {
+			st, ok := s.Instr.(*ssa.Store)
+			if !ok || isNilConst(st.Val) {
+				return
+			}
+			typ, fld, base, ok := fieldAddrName(st.Addr)
+			if !ok || !owners[fieldKey{"*" + typ, fld}] && !owners[fieldKey{typ, fld}] {
+				return
+			}
+			key := uniqKey(r, fmt.Sprintf("%s/%s.%s/%s", rule, typ, fld, FuncKey(fn)))
+			r.Saw(fn)
+			switch {
+			case isFresh(base):
+				r.OK(rule, key, st.Pos(), "construction of a fresh owner")
+				return
+			case closesFieldBefore(fn, fld, s):
+				r.OK(rule, key, st.Pos(), "old value closed before it is replaced")
+				return
+			}
+			// helper: the owner comes in as a parameter; look at the call sites
+			par := paramOrigin(base)
+			if par != nil && len(fn.Params) > 0 && par == fn.Params[0] && fn.Signature.Recv() != nil && fn.Name() == "Open" {
+				r.OK(rule, key, st.Pos(), "assigned in the owner's own Open")
+				return
+			}
+			if par == nil {
+				r.Unk(rule, key, st.Pos(), "owner of the replaced field is neither fresh nor a parameter")
+				return
+			}
+			pi := -1
+			for i, q := range fn.Params {
+				if q == par {
+					pi = i
+				}
+			}
+			sites := p.CallSitesOf(fn)
+			if len(sites) == 0 {
+				if fn.Name() == "Open" {
+					r.OK(rule, key, st.Pos(), "assigned in the owner's Open (guarded by its open flag)")
+				} else {
+					r.Unk(rule, key, st.Pos(), "no call site of the storing helper found")
+				}
+				return
+			}
+			var bad []string
+			for _, cs := range sites {
+				args := cs.Call().Common().Args
+				if cs.Call().Common().IsInvoke() || pi >= len(args) {
+					continue
+				}
+				a := args[pi]
+				if isFresh(a) || closesFieldBefore(cs.Fn, fld, cs) {
+					continue
+				}
+				if cs.Fn.Name() == "Open" {
+					continue
+				}
+				bad = append(bad, fmt.Sprintf("%s (%s)", FuncKey(cs.Fn), p.Pos(cs.Pos())))
+			}
+			if len(bad) == 0 {
+				r.OK(rule, key, st.Pos(), fmt.Sprintf("every call site (%d) constructs the owner or closes the old value first", len(sites)))
+			} else {
+				r.Bad(rule, key, st.Pos(), fmt.Sprintf("%s.%s is replaced without closing the old value when reached from %s: the old handle (descriptor) stays open for good — one leak per replacement", typ, fld, strings.Join(bad, ", ")))
+			}
+		})
+	}
+}
+
